@@ -95,8 +95,51 @@ func c11Check(m *Metrics, sorted []time.Duration, tag string, withPlot bool) (ou
 	}
 	if withPlot {
 		out = append(out, c11Plot(m, tag)...)
+		out = append(out, c11Text(m, allEqual, tag)...)
 	}
 	return
+}
+
+// c11Text: the values the text report prints for min, the percentiles and max
+// are ordered as well, and equal when all latencies are equal (whatever unit
+// each one is rounded to for display).
+func c11Text(m *Metrics, allEqual bool, tag string) (out []c11Finding) {
+	var buf bytes.Buffer
+	if err := NewTextReporter(m).Report(&buf); err != nil {
+		return []c11Finding{{"pct:text:error:" + tag, err.Error()}}
+	}
+	for _, ln := range strings.Split(buf.String(), "\n") {
+		if !strings.HasPrefix(ln, "Latencies") {
+			continue
+		}
+		i := strings.LastIndex(ln, "]")
+		if i < 0 {
+			break
+		}
+		var ds []time.Duration
+		for _, f := range strings.Split(ln[i+1:], ",") {
+			d, err := time.ParseDuration(strings.TrimSpace(f))
+			if err != nil {
+				return []c11Finding{{"pct:text:unparsable:" + tag, ln}}
+			}
+			ds = append(ds, d)
+		}
+		if len(ds) != 7 {
+			return []c11Finding{{"pct:text:shape:" + tag, ln}}
+		}
+		// min, mean, 50, 90, 95, 99, max: the chain without the mean
+		chain := []time.Duration{ds[0], ds[2], ds[3], ds[4], ds[5], ds[6]}
+		for k := 1; k < len(chain); k++ {
+			if chain[k-1] > chain[k] {
+				return []c11Finding{{"pct:text:printed-values-out-of-order:" + tag, strings.TrimSpace(ln)}}
+			}
+			if allEqual && chain[k] != chain[0] {
+				return []c11Finding{{"pct:text:all-equal-but-printed-values-differ:" + tag, strings.TrimSpace(ln)}}
+			}
+		}
+		return nil
+	}
+	return []c11Finding{{"pct:text:no-latencies-line:" + tag, ev.Trunc(buf.String(), 200)}}
 }
 
 // c11FamilyOf strips the arrival order from a tag.
